@@ -926,23 +926,26 @@ class Model:
 
         """
         value = self._parameters[name].value if initial_value is None else initial_value
+        if stoichiometries is not None:
+            for rxn_name in stoichiometries:
+                if rxn_name not in self._reactions and not any(
+                    surrogate.stoichiometries.get(rxn_name)
+                    for surrogate in self._surrogates.values()
+                ):
+                    msg = f"Reaction '{rxn_name}' not found in reactions or surrogates"
+                    raise KeyError(msg)
+
         self.remove_parameter(name)
         self.add_variable(name, value)
 
         if stoichiometries is not None:
             for rxn_name, value in stoichiometries.items():
-                target = False
                 if (rxn := self._reactions.get(rxn_name)) is not None:
-                    target = True
                     cast(dict, rxn.stoichiometry)[name] = value
                 else:
                     for surrogate in self._surrogates.values():
                         if stoich := surrogate.stoichiometries.get(rxn_name):
-                            target = True
                             stoich[name] = value
-                if not target:
-                    msg = f"Reaction '{rxn_name}' not found in reactions or surrogates"
-                    raise KeyError(msg)
 
         return self
 
